@@ -612,6 +612,9 @@ func (p *Prog) GuardStrings(in ssa.Instruction) []string {
 		if extra := p.predicateHelperFact(a); extra != "" {
 			add(extra)
 		}
+		for _, extra := range p.validatorFacts(a) {
+			add(extra)
+		}
 	}
 	return out
 }
@@ -619,6 +622,68 @@ func (p *Prog) GuardStrings(in ssa.Instruction) []string {
 // predicateHelperFact: a guard that is a call to a side-effect-free private predicate
 // (`func (l *listener) isClosed() bool { l.Lock(); defer l.Unlock(); return l.closed }`)
 // also stands for the expression the predicate returns, in the caller's terms.
+// validatorFacts: a guard `check(x) == nil` (or the false edge of `!= nil`) on a private
+// validator of the same package — no stores, sends, goroutines or defers — stands for the
+// conditions under which the validator reaches its (only) `return nil`, in the caller's terms.
+func (p *Prog) validatorFacts(a Atom) []string {
+	bo, ok := a.Cond.(*ssa.BinOp)
+	if !ok || (bo.Op != token.EQL && bo.Op != token.NEQ) {
+		return nil
+	}
+	c, isConst := bo.Y.(*ssa.Const)
+	call, isCall := bo.X.(*ssa.Call)
+	if !isConst || c.Value != nil || !isCall {
+		return nil
+	}
+	if (bo.Op == token.EQL) != a.Pol {
+		return nil // the atom says "returned an error": nothing conjunctive follows
+	}
+	sc := call.Call.StaticCallee()
+	if sc == nil || sc.Blocks == nil || !p.moduleFunc(sc) || sc.Pkg != call.Parent().Pkg || sc.Signature.Results().Len() != 1 {
+		return nil
+	}
+	pure := true
+	var nilRet *ssa.Return
+	nNil := 0
+	EachInstr(sc, func(in ssa.Instruction) {
+		switch x := in.(type) {
+		case *ssa.Store:
+			if _, local := x.Addr.(*ssa.Alloc); !local {
+				pure = false
+			}
+		case *ssa.Send, *ssa.Go, *ssa.MapUpdate, *ssa.Select, *ssa.Defer:
+			pure = false
+		case *ssa.Return:
+			if len(x.Results) == 1 {
+				if k, ok := x.Results[0].(*ssa.Const); ok && k.Value == nil {
+					nilRet = x
+					nNil++
+				}
+			}
+		}
+	})
+	if !pure || nNil != 1 {
+		return nil
+	}
+	saved := descSubst
+	ns := map[*ssa.Parameter]string{}
+	for k, v := range saved {
+		ns[k] = v
+	}
+	for i, par := range sc.Params {
+		if i < len(call.Call.Args) {
+			ns[par] = Desc(call.Call.Args[i])
+		}
+	}
+	descSubst = ns
+	var out []string
+	for _, g := range p.GuardsOf(nilRet.Block()) {
+		out = append(out, NormAtom(g.Cond, g.Pol))
+	}
+	descSubst = saved
+	return out
+}
+
 func (p *Prog) predicateHelperFact(a Atom) string {
 	call, ok := a.Cond.(*ssa.Call)
 	if !ok {
